@@ -754,7 +754,8 @@ class Dataset(AutoSerialize):
         N_in = int(np.prod([self.shape[a4] for a4 in axes]))
         N_out = int(np.prod([axis_to_outlen[a5] for a5 in axes]))
         if N_in > 0 and N_out > 0:
-            array_resampled *= N_out / N_in
+            # out-of-place: with an empty axis selection the array is still the (possibly integer) input
+            array_resampled = array_resampled * (N_out / N_in)
 
         # Metadata (ensure float arrays to avoid truncation)
         new_sampling = self.sampling.astype(float).copy()
